@@ -674,6 +674,13 @@ static struct json_object *hist_build(int k)
 	case 10: o = json_object_new_string(s45); json_object_set_string(o, ""); break;
 	case 11: o = json_object_new_boolean(1); json_object_set_boolean(o, 0); break;
 	case 12: o = json_object_new_uint64(UINT64_MAX); json_object_set_int64(o, -5); json_object_set_uint64(o, 3); break;
+	/* user data attached to a node is the user's business: it never shows in the text */
+	case 13: o = json_object_new_double(1.5); json_object_set_userdata(o, (void *)"note", NULL); break;
+	case 14: o = json_object_new_double_s(1.5, "1.50"); json_object_set_double(o, 2.5); json_object_set_userdata(o, (void *)"price-tag", NULL); break;
+	case 15: o = json_object_new_double(-0.25); json_object_set_serializer(o, NULL, (void *)"%d items", NULL); break;
+	case 16: o = json_object_new_int(7); json_object_set_userdata(o, (void *)"seven", NULL); break;
+	case 17: o = json_object_new_string("s"); json_object_set_serializer(o, NULL, (void *)"tag", NULL); break;
+	case 18: o = json_object_new_boolean(1); json_object_set_userdata(o, (void *)"yes", NULL); break;
 	}
 	return o;
 }
@@ -693,13 +700,19 @@ static V *hist_model(int k)
 	case 9: return v_str("a\0b/\"", 6);
 	case 10: return v_strz("");
 	case 11: return v_bool(0);
-	default: return v_int(0, 3);
+	case 12: return v_int(0, 3);
+	case 13: return v_dbl(1.5);
+	case 14: return v_dbl(2.5);
+	case 15: return v_dbl(-0.25);
+	case 16: return v_int(0, 7);
+	case 17: return v_strz("s");
+	default: return v_bool(1);
 	}
 }
 static void fam_histories(void)
 {
 	cur_fam = "set-histories";
-	for (int k = 0; k <= 12; k++)
+	for (int k = 0; k <= 18; k++)
 		for (int wrap = 0; wrap < 2; wrap++)
 		{
 			va_reset();
